@@ -224,6 +224,18 @@ def run(cx):
             ok = els is not None and len(els) == 1 and mentions_param(els[0], "certs") and any(x[0] == "field" and x[2] == "1" for x in walk(els[0])) \
                 and term_has_call(els[0], "Iterator::next")
         ob.require(ok, "server_config/sni-cert", f"certificate registered for the SNI name: {show(ck)[:120]}", sb.path)
+        # every successfully built server config selects its certificate by the claimed name (SNI resolver), never a single fixed certificate
+        okret = [i for i, bl in enumerate(sb.blocks) if not bl.get("cleanup") for s_ in bl["s"] if s_["k"] == "assign" and s_["lhs"] == 0 and s_["rv"]["k"] == "agg" and s_["rv"].get("variant") == "Ok"]
+        rsv = sb.calls_to("with_cert_resolver")
+        ob.require(bool(okret) and bool(rsv) and all(any(sb.dominates(r_.bb, i) for r_ in rsv) for i in okret), "server_config/sni-on-all-paths",
+                   "a path of server_config returns Ok without installing the SNI certificate resolver", sb.path)
+        for bad_ in ("with_single_cert", "with_single_cert_with_ocsp", "with_single_cert_with_ocsp_and_sct"):
+            for c_ in prog.callers_of(bad_, crates=["anemo"]):
+                ob.fail("refuted", f"server_config/single-cert/{owner_path(prog, c_.body)}", f"{c_.body.path} builds a TLS server config with a fixed certificate ({bad_}): the claimed network name is no longer checked by certificate selection",
+                        c_.body.path, c_.body.loc(c_.bb))
+        for c_ in rsv:
+            t_ = so.of_operand(c_.args[1])
+            ob.require(term_has_call(t_, "ResolvesServerCertUsingSni::new"), "server_config/resolver-is-sni", f"certificate resolver is {show(t_)[:80]}", sb.path, sb.loc(c_.bb))
         rs = sb.calls_to("with_cert_resolver")
         ob.require(len(rs) == 1 and term_has_call(so.of_operand(rs[0].args[1]), "ResolvesServerCertUsingSni::new"), "server_config/resolver-installed", "SNI resolver not installed", sb.path)
         # pinned-dial verifier uses [self.server_name()]
